@@ -50,8 +50,8 @@ def result(ok, cls=None, msg=None, sig=None, digest=None, nontrivial=True, probe
 
 # ------------------------------------------------------------ known findings
 def load_known():
-    if not os.path.exists(KNOWN):
-        return []
+    if not os.path.exists(KNOWN) or os.environ.get("VERIF_IGNORE_KNOWN"):
+        return []      # VERIF_IGNORE_KNOWN=1: development aid, never set by registered commands
     with open(KNOWN) as f:
         return json.load(f).get("findings", [])
 
